@@ -128,6 +128,7 @@ type peerState struct {
 	upEpoch  int // epoch of the last peer_up
 	sensor   bool
 	everUp   bool
+	appearedUnlisted int // epoch in which PeerAppeared overtook the adapter's registration
 	instances int
 	insts    []*simPeer // every adapter instance of this incarnation (the manager may keep and restart an older one)
 }
@@ -165,6 +166,10 @@ func (p *simPeer) Start() (error, bool) {
 	p.closed = make(chan struct{})
 	closed := p.closed
 	go func() {
+		// like a real client's handler goroutine, the adapter announces its peer right after the
+		// start; whether that announcement overtakes the manager's own bookkeeping (the adapter is
+		// entered into the manager's table only after Start returned) is a schedule decision
+		p.n.sched.Park("zappear", "p"+strconv.Itoa(p.ps.idx), p)
 		select {
 		case p.ch <- cla.NewConvergencePeerAppeared(p, p.ps.eid):
 		case <-closed:
@@ -459,6 +464,17 @@ func (n *nodeSim) settle() {
 		} else {
 			n.lg.Add("release %s:%s", t.Point, shortKey(t.Key))
 			n.res.Probe("hook_release_" + t.Point)
+			if t.Point == "zappear" {
+				for _, o := range parked {
+					if o.Point == "store.register.store" && o.Key == "sim://"+t.Key {
+						// the peer is announced to the core before the manager lists its adapter
+						if sp, ok := t.Data.(*simPeer); ok {
+							sp.ps.appearedUnlisted = n.epoch
+							n.res.Fault("peer_appeared_before_registration")
+						}
+					}
+				}
+			}
 			if t.Point == "store.cron" && t.Key == "dtlsr_recompute" && n.algo == "prophet" {
 				n.prophetOnAgeTick() // PRoPHET registers its ageing job under this name
 			}
@@ -745,10 +761,12 @@ func runNodeCase(c *simk.Case) *simk.Result {
 	simCurrent = n
 	storage.SimHook = func(point, key string) { n.hook(point, key) }
 	SimHook = func(point, key string) { n.hook(point, key) }
+	cla.SimHook = func(point, key string) { n.hook(point, key) }
 	cla.SimOrderSenders = func(css []cla.ConvergenceSender) []cla.ConvergenceSender { return n.orderSenders(css) }
 	defer func() {
 		storage.SimHook = nil
 		SimHook = nil
+		cla.SimHook = nil
 		cla.SimOrderSenders = nil
 		simCurrent = nil
 	}()
